@@ -460,7 +460,10 @@ def e2e_check(workdir, cfg, parts, tier):
     if 'sym' in parts and lin:
         pk = max(kept, key=lambda t: abs(kept[t]))
         ck.require('alignment', pk == 0, 'linear phase: the impulse response peaks at high-rate index %d, not at the input instant (C04/C14)' % pk)
-        ck.require('symmetry', asym <= delta0, 'linear phase: impulse response not symmetric about the input instant (L1 asymmetry %g > %g) (C04/C14)' % (float(asym), float(delta0)))
+        # arithmetic noise of the engine under test (float32 FFT/FIR rounding spread over the whole support) is not asymmetry of the
+        # filter: allowance proportional to the L1 norm of the response (2^-20 relative for the float engines, 2^-45 for double)
+        sym_tol = delta0 + sum((abs(v) for v in kept.values()), Fraction(0)) / (1 << (20 if float_engine else 45))
+        ck.require('symmetry', asym <= sym_tol, 'linear phase: impulse response not symmetric about the input instant (L1 asymmetry %g > %g) (C04/C14)' % (float(asym), float(sym_tol)))
         ck.detail['asym_l1'] = float(asym)
     if 'gain' in parts:
         S = sum(g.values())
